@@ -10,6 +10,10 @@
 (* select_batch {which, api, at, ok, r}  one call for all k of at                     *)
 (* get {api, all, at, r}  counts {len, ones, zeros}  popcounts {api, r}                        *)
 (* wrank {api, w, r}  wselect {which, api, w, r}   questions on one 64-bit word       *)
+(* wselect_batch {api, w, at, ok, r}  one call for several ones of one word           *)
+(* bulk entry points are asked ascending, descending, shuffled, duplicated, far-apart,  *)
+(* same-block and empty lists (api = name<order>): rank {all = FALSE, at, r} and        *)
+(* select_batch judge every element against the single-position answer, in order        *)
 (* cnt {what, api, r}  wrange {api, w, s, l, r}  wedge {api, w, tz, lz}              *)
 (* mut {m, api, ..., len, ones}  one BitVector mutator (history machine), len and     *)
 (*                               count_ones observed after the call                   *)
@@ -53,6 +57,7 @@ Step(e) ==
     \/ e.op = "counts" /\ Counts(e.len, e.ones, e.zeros)
     \/ e.op = "wrank"  /\ WordRank(e.w, e.r)
     \/ e.op = "wselect" /\ WordSelect(e.which, e.w, e.r)
+    \/ e.op = "wselect_batch" /\ WordSelectBatch(e.w, e.at, e.ok, e.r)
     \/ e.op = "popcounts" /\ Popcounts(e.r)
     \/ e.op = "cnt"    /\ CountTwin(e.what, e.r)
     \/ e.op = "wrange" /\ WordRanges(e.w, e.s, e.l, e.r)
